@@ -57,6 +57,8 @@ func main() {
 		err = h.RunC15Gen(*cases, *seed, *thorough)
 	case "c15":
 		err = h.RunC15(*cases, *pre, *trace, *stats)
+	case "c12tally":
+		err = h.RunC12Tally(*cases, *trace, *stats)
 	case "c18":
 		err = h.RunC18(*cases, *trace, *stats, *seed)
 	case "hist":
